@@ -99,7 +99,7 @@ def run_config(res, n, d, fc, sc, ks, queries, stats):
     rng = res.rng
     top = common.scratch_dir()
     nf = common.number_form
-    w = digital_rf.DigitalMetadataWriter(top, nf(rng, sc), nf(rng, fc), nf(rng, n), nf(rng, d), PREFIX)
+    w = digital_rf.DigitalMetadataWriter(common.path_form(top), nf(rng, sc), nf(rng, fc), nf(rng, n), nf(rng, d), PREFIX)
     i = 0
     while i < len(ks):
         m = rng.choice([1, 1, 2, 3, 5])
@@ -113,7 +113,7 @@ def run_config(res, n, d, fc, sc, ks, queries, stats):
         i += len(chunk)
     where, files = walk_samples(top)
     fileset = set(files)
-    rd = digital_rf.DigitalMetadataReader(top)
+    rd = digital_rf.DigitalMetadataReader(common.path_form(top))
     cfgi = {"n": n, "d": d, "fc": fc, "sc": sc}
     # ---- model (both variants) for every written sample
     mE = model_paths(0, n, d, fc, sc, ks)
@@ -303,7 +303,7 @@ def run_sessions(res, n, d, fc, sc):
         res.violation("duplicate-across-sessions-accepted", "a sample written in an earlier session was overwritten",
                       inp, "IOError", dup)
     where, _files = walk_samples(top)
-    rd = digital_rf.DigitalMetadataReader(top)
+    rd = digital_rf.DigitalMetadataReader(common.path_form(top))
     for k in ks1 + ks2:
         exp = rel(*spec_path(n, d, fc, sc, k))
         keys = [int(x) for x in rd.read(k, k).keys()]
@@ -467,7 +467,7 @@ def replay(res, rp):
               % (n, d, fc, sc, PREFIX, len(i["others"]), p2))
         print(" constructor ->", got, "; tree", "unchanged" if tree_hash(top) == h0 else "CHANGED",
               "; required:", "accepted" if same else "ValueError(Mismatched ...), tree unchanged")
-        rd = digital_rf.DigitalMetadataReader(top)
+        rd = digital_rf.DigitalMetadataReader(common.path_form(top))
         lost = [x for x in i["others"] if [int(y) for y in rd.read(x, x).keys()] != [x]]
         print(" samples a new reader no longer finds:", lost)
         bad = (got == "accepted") != same or tree_hash(top) != h0 and not same or bool(lost)
@@ -478,7 +478,7 @@ def replay(res, rp):
     for x in ks:
         w.write(x, {"v": 1})
     where, files = walk_samples(top)
-    rd = digital_rf.DigitalMetadataReader(top)
+    rd = digital_rf.DigitalMetadataReader(common.path_form(top))
     S, T = spec_path(n, d, fc, sc, k)
     print("config n=%d d=%d file_cadence=%d subdir_cadence=%d  sample k=%d  floor(k*d/n)=%d" % (n, d, fc, sc, k, k * d // n))
     print(" required file :", rel(S, T))
